@@ -365,6 +365,18 @@ INTERNAL_NAMES = ['attributes', 'strict', 'span', 'index', '_attributes', '_stri
 CLOBBERING_VARIABLE_NAMES = ('attributes', 'strict')
 
 
+def clobbers(item, out, keys_before, index_before):
+    """The operation succeeded although the `__dict__` key it writes belonged to something else."""
+    if out != 'ok' or 'name' not in item:
+        return False
+    name = item['name']
+    if item['op'] == 'addVariable':
+        return name not in index_before and '_' + name in keys_before
+    if item['op'] in ('setAttr', 'addAttribute'):
+        return name.startswith('_') and name[1:] in index_before
+    return False
+
+
 def internal_state(obj):
     """The container's own bookkeeping, as plain values (for before / after comparison by the oracles)."""
     def grab(k):
@@ -524,6 +536,8 @@ def initial_store(obj, case, extra_size, extra_bytes, ids):
         'attrs': list(obj._attributes), 'strict': bool(obj.strict),
         'defaultKind': np.dtype(obj.dtype).kind if is_model else None,
         'extraSize': int(extra_size), 'extraBytes': int(extra_bytes),
+        # `__dict__` keys that are neither a variable's storage nor listed in `_attributes`
+        'extraKeys': sorted(set(obj.__dict__) - {'_' + n for n in obj.index} - set(obj._attributes)),
     }
 
 
@@ -565,6 +579,7 @@ def run_segments(case, observer=None):
                 closest('values', decl) if item['op'] == 'setValues' else
                 closest('strict', decl) if item['op'] == 'setStrict' else None)
         before = snapshot(obj) if observer else None
+        keys_before, index_before = set(obj.__dict__), list(obj.index)
         out, exc = apply_item(obj, item)
         seg = segments[-1]
         if item['op'] in READS:
@@ -573,10 +588,11 @@ def run_segments(case, observer=None):
             if item['op'] == 'addVariable' and out == 'ok':
                 decl.append(item['name'])
             seg['impl'].append(out + '|' + dump_state(obj))
-        clobbered = item['op'] == 'addVariable' and item['name'] in CLOBBERING_VARIABLE_NAMES and out == 'ok'
+        clobbered = clobbers(item, out, keys_before, index_before)
         if clobbered:
-            # the new array has replaced the container's own `_attributes` / `_strict` entry: what the object does from
-            # here on is not a container's behaviour any more — the oracle reports it, the history ends here
+            # a `__dict__` entry that belonged to something else (the container's own `_attributes` / `_strict`, or a
+            # variable's storage) has been replaced: what the object does from here on is not a container's behaviour
+            # any more — the oracle reports it, the history ends here
             seg['impl'].pop()
             if observer:
                 observer(obj, item, before, out, exc, decl)
